@@ -109,7 +109,9 @@ META = {
     },
     "C20": {
         "text": "Coq theorems over the hub transition system: in every reachable state the gauge equals the number of handlers between successful registration and "
-                "the end of shutdown; at every step updates_total grows exactly with acknowledged publishes and subscribers_total exactly with registrations. "
+                "the end of shutdown; at every step updates_total grows exactly with acknowledged publishes and subscribers_total exactly with registrations; globally, between two restarts "
+                "and from any state, subscribers_total grows by exactly the number of streams accepted and updates_total by exactly the number of publishes acknowledged "
+                "(refused ones count for nothing), 0 <= gauge <= subscribers_total, and a restart zeroes all three. "
                 "Tied to the code by reading the real Prometheus registry after every operation of handler-level histories.",
         "design_ref": "DESIGN.md §5 C20", "note": HUB_NOTE,
         "technique": "Coq proof (inductive invariant of the hub LTS over all schedules) + differential correspondence of metrics after every operation",
